@@ -7,6 +7,10 @@ ALL = ["C%02d" % i for i in range(1, 21)]
 
 # id -> (technique, level text, level note, design section)
 CLAIMED = {
+ "C06": ("stateful property-based testing on one node with 2-3 channels: generated approvals, per-channel content edits pushed to either commitment in any order, preimages, pruning, restarts; oracle = invariant over the ledger of accepted commitment contents (u128 msat)",
+         "Held-on-N-histories exploration; the genuine defect found (payments applied at revoke without re-validation) was repaired by a fix: commit and kept as a regression replay.",
+         "Approval liveness (existence only) read from the node after pruning; issue-331 tolerated imbalance outside the oracle.",
+         "C06"),
  "C04": ("property-based testing: generated setups x contents x one of 28 mutations of the raw transaction / witness scripts / arguments; oracle = byte equality with and signature verification against an independently built BOLT-3 reference transaction, differential between the semantic and raw entry points",
          "Held-on-N-cases exploration of both counterparty-commitment entry points against reference transactions.",
          "Trusted: LDK CommitmentTransaction/build_htlc_transaction builders fed directly from the generated setup, rust-bitcoin sighash, libsecp256k1.",
